@@ -16,6 +16,7 @@ package main
 // The direct oracle on whole loads is in c02_oracle.go.
 
 import (
+	"context"
 	"encoding/json"
 	"fmt"
 	"os"
@@ -25,6 +26,7 @@ import (
 	"sort"
 	"strings"
 
+	"github.com/compose-spec/compose-go/v2/consts"
 	"github.com/compose-spec/compose-go/v2/graph"
 	"github.com/compose-spec/compose-go/v2/loader"
 	"github.com/compose-spec/compose-go/v2/override"
@@ -454,6 +456,57 @@ func init() {
 		},
 		DriverOp: "c02.mergeSeq",
 	})
+	core.Register("c02.extends", &core.CheckDef{
+		Real: func(raw json.RawMessage) any {
+			var a struct {
+				Services [][]any `json:"services"`
+				Reps     int     `json:"reps"`
+			}
+			json.Unmarshal(raw, &a)
+			var first any
+			for i := 0; i < max(a.Reps, 1); i++ {
+				svcs := map[string]any{}
+				for _, e := range a.Services {
+					body := core.DecodeVal(e[2]).(map[string]any)
+					if ref, ok := e[1].(string); ok {
+						if i%2 == 0 {
+							body["extends"] = map[string]any{"service": ref}
+						} else {
+							body["extends"] = ref
+						}
+					}
+					svcs[e[0].(string)] = body
+				}
+				dict := map[string]any{"services": svcs}
+				ctx := context.WithValue(context.Background(), consts.ComposeFileKey{}, "compose.yaml")
+				var out any
+				if err := loader.VerifApplyExtends(ctx, dict, &loader.Options{}); err != nil {
+					out = map[string]any{"err": true}
+				} else {
+					out = map[string]any{"ok": core.EncodeVal(dict["services"])}
+				}
+				if i == 0 {
+					first = out
+				} else if !jsonEq(first, out) {
+					return map[string]any{"unstable": []any{first, out}}
+				}
+			}
+			return first
+		},
+		DriverOp: "c02.extends",
+		Judge: func(args, real, drv json.RawMessage) *core.Verdict {
+			if v := core.CrashVerdict(real); v != nil {
+				return v
+			}
+			if strings.HasPrefix(string(real), `{"unstable"`) {
+				return core.Fail("nondeterministic:loader.ApplyExtends", "two runs of ApplyExtends on the same services map differ: "+string(real))
+			}
+			if !core.CanonEqual(real, drv) {
+				return core.Disagree("Det.applyAll ≠ loader.ApplyExtends")
+			}
+			return nil
+		},
+	})
 	core.Register("c02.newGraph", &core.CheckDef{
 		Real: func(raw json.RawMessage) any {
 			var a c02GraphArgs
@@ -771,7 +824,65 @@ func runC02(ctx *core.Ctx) {
 			}
 		}
 	}
+	// 1e. every `extends` graph over 3 services (each extends nobody / one of the three / a missing one) × 2 body shapes
+	{
+		names := []string{"a", "b", "c"}
+		refs := []any{nil, "a", "b", "c", "ghost"}
+		bodies := []map[string]any{
+			{"image": "i", "hostname": "h", "healthcheck": map[string]any{"interval": "1s"}},
+			{"image": "j", "x-e": []any{1}, "healthcheck": map[string]any{"retries": 2, "interval": "2s"}, "user": nil},
+		}
+		for _, ra := range refs {
+			for _, rb := range refs {
+				for _, rc := range refs {
+					for sh := 0; sh < 2; sh++ {
+						var svcs [][]any
+						for i, r := range []any{ra, rb, rc} {
+							svcs = append(svcs, []any{names[i], r, core.EncodeVal(bodies[(i+sh)%2])})
+						}
+						ctx.Count("extends-exhaustive")
+						ctx.Add("c02.extends", map[string]any{"services": svcs, "reps": ctx.Pick(6, 20)})
+					}
+				}
+			}
+		}
+	}
 	ctx.Res.Exhaustive = true
+	// random extends forests / graphs over up to 5 services with random generic bodies
+	for i := 0; i < ctx.Pick(1500, 30000); i++ {
+		n := 2 + ctx.Rng.Intn(4)
+		names := []string{"a", "b", "c", "d", "e"}[:n]
+		var svcs [][]any
+		for j, nm := range names {
+			var ref any
+			switch k := ctx.Rng.Intn(10); {
+			case k < 5 && j > 0:
+				ref = names[ctx.Rng.Intn(j)] // earlier service: acyclic
+			case k == 5:
+				ref = names[ctx.Rng.Intn(n)] // anyone: may be cyclic / self
+			case k == 6 && ctx.Rng.Intn(4) == 0:
+				ref = "ghost"
+			}
+			body := map[string]any{}
+			for _, key := range []string{"image", "hostname", "user", "x-e", "working_dir"} {
+				if ctx.Rng.Intn(2) == 0 {
+					body[key] = c02Scalar(ctx)
+				}
+			}
+			if ctx.Rng.Intn(2) == 0 {
+				hc := map[string]any{}
+				for _, key := range []string{"interval", "retries", "timeout"} {
+					if ctx.Rng.Intn(2) == 0 {
+						hc[key] = c02Scalar(ctx)
+					}
+				}
+				body["healthcheck"] = hc
+			}
+			svcs = append(svcs, []any{nm, ref, core.EncodeVal(body)})
+		}
+		ctx.Count("extends-random")
+		ctx.Add("c02.extends", map[string]any{"services": svcs, "reps": 4})
+	}
 
 	// ---- 2. seeded random, mostly valid
 	for i := 0; i < ctx.Pick(4000, 60000); i++ {
